@@ -19,6 +19,8 @@ N2.sort(key=lambda v: (sum(1 for c in v if c == 0) * -1, max(abs(c) for c in v),
 CUBE5 = list(product(range(-2, 3), repeat=3))
 CUBE3 = list(product(range(0, 3), repeat=3))
 DS = (-2, -1, 0, 1, 2, F(1, 2))
+N3 = [v for v in product(range(-3, 4), repeat=3) if v != (0, 0, 0)]
+DS3 = (-3, -2, -1, F(-1, 2), 0, F(1, 4), F(1, 2), 1, F(3, 2), 2, 3, 7)
 
 
 def zero_pattern(n):
@@ -219,11 +221,14 @@ def families(tier):
     pts = A.B0 if tier == 'quick' else A.B1
     fams = []
     for pose in poses:
-        sc = [('pn', pose(X.Pl(p, n))) for n in N2 for p in (A.B0[:6] if tier == 'quick' else A.B0)]
+        sc = [('pn', pose(X.Pl(p, n))) for n in (N2 if tier == 'quick' else N3) for p in (A.B0[:6] if tier == 'quick' else A.B0)]
         fams.append(ListFamily('pn/' + pose.name, sc))
         sc = [('line', pose.point(p), pose.point(q)) for p in pts for q in pts if p != q]
         fams.append(ListFamily('line/' + pose.name, sc))
-    fams.append(ListFamily('gf', [('gf',) + n + (d,) for n in N2 for d in DS], chunk=50))
+    if tier == 'quick':
+        fams.append(ListFamily('gf', [('gf',) + n + (d,) for n in N2 for d in DS], chunk=50))
+    else:
+        fams.append(ListFamily('gf', [('gf',) + n + (d,) for n in N3 for d in DS3], chunk=50))
     tri = [t for t in combinations(CUBE3, 3) if not X.is_zero(X.cross(X.sub(t[1], t[0]), X.sub(t[2], t[0])))]
     if tier == 'quick':
         sc = [('3pt',) + t for t in tri]
@@ -243,6 +248,8 @@ def run(tier, seed):
     res.rule = ('every plane Plane(p,n) with n in {-2..2}^3\\0 and lattice p (x poses), every (a,b,c,d) with (a,b,c) in {-2..2}^3\\0 and d in '
                 '{-2,-1,0,1,2,1/2}, every non-collinear point triple of {0,1,2}^3, every independent (v,w) of D1, every ordered lattice point pair as '
                 'Line; non-trivial = normal/direction with a zero or negative leading component')
+    if tier != 'quick':
+        res.rule = res.rule.replace('{-2..2}^3', '{-3..3}^3').replace('{-2,-1,0,1,2,1/2}', '{-3,-2,-1,-1/2,0,1/4,1/2,1,3/2,2,3,7}')
     res.alphabets = {f.name: f.total for f in fams}
     return res
 
